@@ -558,11 +558,109 @@ def rule_leaf(prog, rep):
         rep.finding("C26.LEAF", fn.name, "enum", "enum result coercion no longer checks the value against enum_def.values", fn.loc())
 
 
+def rule_args(prog, rep):
+    """C26.ARGS: coerce_argument_values as the decision table of CoerceArgumentValues(), one row per
+    argument definition: (argument provided?, its value a variable or a literal, variable present
+    in the coerced variables?, that value null?, literal null?, argument type non-null?, default
+    value defined?) -> what happens.  A variable that is absent from the coerced variables counts
+    as `no value provided` (default / required error / omitted), not as a value to coerce."""
+    rep.floor("C26.ARGS", 1)
+    import itertools
+    from ..flow import loop_headers
+    f = prog.inline(prog.fn(r"^%sinput_coercion::coerce_argument_values$" % R), keep=r"input_coercion::(coerce_argument_value|graphql_value_to_json)$|GraphQLError")
+    hs = loop_headers(f)
+    outer = [h for h in hs if re.search(r"arg3\.arguments\)?$", f.sym(hs[h][2].args[0]))]
+    if len(outer) != 1:
+        raise Undecided("coerce_argument_values: loop over field_def.arguments not found")
+    h = outer[0]
+    rows = []
+    for atoms, end, path in enum_paths(f, start=hs[h][0], stops={h}, inner_loops="cut"):
+        preds = []
+        for a in _strip(atoms):
+            names = (a[2],) if a[0] == "variant" else (tuple(a[2]) if a[0] == "variant_in" else None)
+            if names is not None:
+                p0 = a[1]
+                if re.search(r"Try>?::branch@\d+$", p0):
+                    continue
+                if re.search(r"Iterator>::find@\d+$", p0):
+                    preds.append(("provided", lambda v, ns=names: ("Some" if v else "None") in ns))
+                elif re.search(r"find@\d+\.as:Some\.0\.value$", p0):
+                    preds.append(("isvar", lambda v, ns=names: (("Variable" in ns) if v else any(n != "Variable" for n in ns))))
+                elif re.search(r"Map::<.*>::get@\d+$|variable_values.*get@\d+$", p0):
+                    preds.append(("varpresent", lambda v, ns=names: ("Some" if v else "None") in ns))
+                elif p0.endswith(".default_value"):
+                    preds.append(("hasdefault", lambda v, ns=names: ("Some" if v else "None") in ns))
+                else:
+                    raise Undecided("coerce_argument_values: unrecognised condition %s" % (a,))
+            elif a[0] == "callbool":
+                nm, args, val = a[1], a[2], a[3]
+                a0 = (args[0] or "") if args else ""
+                if nm.endswith("::is_null") and re.search(r"get@\d+\.as:Some\.0$", a0):
+                    preds.append(("varnull", lambda v, val=val: v == val))
+                elif nm.endswith("::is_null") and a0.endswith(".value"):
+                    preds.append(("litnull", lambda v, val=val: v == val))
+                elif nm.endswith("is_non_null") and a0.endswith(".ty"):
+                    preds.append(("nonnull", lambda v, val=val: v == val))
+                else:
+                    raise Undecided("coerce_argument_values: unrecognised test %s(%s)" % (nm.split("::")[-1], a0[-50:]))
+            else:
+                raise Undecided("coerce_argument_values: unrecognised condition %s" % (a,))
+        effects = []
+        for b in path:
+            c = f.call_at(b)
+            if c is None:
+                continue
+            if re.search(r"Map::<.*>::insert$|JsonMap.*::insert$", c.name):
+                v = f.sym_on_path(c.args[-1], path)
+                effects.append("ins-var" if re.search(r"Clone>::clone\(&?\*?Map::get\(", v) else "ins-lit" if "coerce_argument_value(" in v else "ins-default" if "graphql_value_to_json(" in v else "ins-?" + v[:50])
+            elif re.search(r"GraphQLError>?::field_error$", c.name):
+                effects.append("error")
+        ret = f.term(end)[0] == "ret"
+        if ret and not effects:
+            leaf = "propagate"
+        elif ret and effects == ["error"]:
+            leaf = "error"
+        elif not ret and len(effects) == 1 and effects[0].startswith("ins-"):
+            leaf = effects[0]
+        elif not ret and not effects:
+            leaf = "omit"
+        else:
+            leaf = "?%s%s" % (effects, " ret" if ret else "")
+        rows.append((preds, leaf))
+    VARS = ("provided", "isvar", "varpresent", "varnull", "litnull", "nonnull", "hasdefault")
+    bad = []
+    for vals in itertools.product((True, False), repeat=len(VARS)):
+        env = dict(zip(VARS, vals))
+        got = set(leaf for preds, leaf in rows if all(p(env[k]) for k, p in preds))
+        if env["provided"] and env["isvar"] and env["varpresent"]:
+            want = {"error"} if (env["varnull"] and env["nonnull"]) else {"ins-var"}
+        elif env["provided"] and not env["isvar"]:
+            want = {"error"} if (env["litnull"] and env["nonnull"]) else {"ins-lit", "propagate"}
+        elif env["hasdefault"]:
+            want = {"ins-default", "propagate"}
+        elif env["nonnull"]:
+            want = {"error"}
+        else:
+            want = {"omit"}
+        ok = bool(got) and got <= want and (got & (want - {"propagate"}))
+        rep.obligation(bool(ok))
+        if not ok:
+            bad.append((env, sorted(got), sorted(want)))
+    if not bad:
+        rep.instance("C26.ARGS", "coerce_argument_values: %d rows of CoerceArgumentValues() (provided / variable or literal / variable present / nulls / non-null type / default) agree with the %d CFG paths of one loop iteration" % (2 ** len(VARS), len(rows)))
+    else:
+        env, got, want = bad[0]
+        desc = ", ".join("%s=%s" % (k, env[k]) for k in VARS)
+        rep.finding("C26.ARGS", f.name, "row",
+                    "CoerceArgumentValues(): for an argument with %s the code does %s, the algorithm prescribes %s (%d rows differ); e.g. a variable that is absent from the coerced variables must fall back to the argument's default value" % (desc, got or "nothing", want, len(bad)), f.loc())
+
+
 def run(prog, rep):
     rule_nullify(prog, rep)
     rule_path(prog, rep)
     rule_apply(prog, rep)
     rule_collect(prog, rep)
     rule_leaf(prog, rep)
+    rule_args(prog, rep)
     rep.assume("IndexMap keeps first-insertion order; serde_json_bytes predicates (is_f64, as_i64, ...) behave as documented")
     rep.note("response equality with a reference executor, field merging of sub-selections and resolver behaviour are not decided")
